@@ -193,3 +193,34 @@ pub struct Expected {
 pub fn gap_has_newline(text: &str, from: usize, to: usize) -> Option<usize> {
     text[from..to].find('\n').map(|p| from + p)
 }
+
+/// The full expected token stream of `text` (line-break terminators included) by R-lex and the
+/// layout rule; None if the text has unexpected symbols or hits a cell the rule leaves open.
+pub fn expected_stream(text: &str) -> Option<Vec<Tok>> {
+    let l = lex(text);
+    if !l.unexpected.is_empty() {
+        return None;
+    }
+    let mut out = vec![];
+    for (k, t) in l.toks.iter().enumerate() {
+        if k > 0 {
+            let prev = &l.toks[k - 1];
+            if gap_has_newline(text, prev.end, t.start).is_some() {
+                match terminator_between(prev.tok.kind(), t.tok.kind()) {
+                    Tri::Yes => out.push(Tok::LineBreak),
+                    Tri::No => {}
+                    Tri::DontCare => return None,
+                }
+            }
+        }
+        out.push(t.tok.clone());
+    }
+    Some(out)
+}
+
+/// Do the two spellings stay two tokens when written without a gap?
+pub fn separable(a: &Tok, b: &Tok) -> bool {
+    let s = format!("{}{}", a.plain(), b.plain());
+    let l = lex(&s);
+    l.unexpected.is_empty() && l.toks.len() == 2 && l.toks[0].tok == *a && l.toks[1].tok == *b
+}
